@@ -1,39 +1,77 @@
 import Aiorpcx.C16.Lemmas
 /-! C16 — the credential / host-name *strings* survive: a UTF-8 decoder written from RFC 3629
-    (by byte layout, lenient about over-long forms) applied to `utf8 s` gives back `s`. -/
+    (strict: continuation bytes, shortest form, no surrogates, at most U+10FFFF) applied to `utf8 s` gives back `s`. -/
 namespace Aiorpcx.C16
 open Aiorpcx.Socks
 
 namespace Spec
 
-/-- value bits of a continuation byte `10xxxxxx` -/
-def cont (b : UInt8) : Nat := b.toNat - 0x80
+/-- value bits of a continuation byte `10xxxxxx`; any other byte is not a continuation byte -/
+def cont (b : UInt8) : Option Nat :=
+  if 0x80 ≤ b.toNat ∧ b.toNat < 0xC0 then some (b.toNat - 0x80) else none
 
-/-- RFC 3629 §3: 1-byte `0xxxxxxx`, 2-byte `110xxxxx 10xxxxxx`, 3-byte `1110xxxx 10.. 10..`,
-    4-byte `11110xxx 10.. 10.. 10..` -/
+/-- RFC 3629 §3/§4, strict: 1-byte `0xxxxxxx`, 2-byte `110xxxxx 10xxxxxx`, 3-byte
+    `1110xxxx 10.. 10..`, 4-byte `11110xxx 10.. 10.. 10..`; every trailing byte must be a
+    continuation byte `10xxxxxx`; over-long forms (`C0`/`C1` leads, 3-byte forms below U+0800,
+    4-byte forms below U+10000), UTF-16 surrogates U+D800..U+DFFF and values above U+10FFFF are
+    not UTF-8 -/
 def decodeUtf8 : (fuel : Nat) → List UInt8 → Option (List Nat)
   | 0, _ => none
   | _ + 1, [] => some []
   | f + 1, b0 :: rest =>
     if b0.toNat < 0x80 then (decodeUtf8 f rest).map (b0.toNat :: ·)
-    else if b0.toNat < 0xC0 then none
+    else if b0.toNat < 0xC2 then none
     else if b0.toNat < 0xE0 then
       match rest with
-      | b1 :: r => (decodeUtf8 f r).map (((b0.toNat - 0xC0) * 64 + cont b1) :: ·)
+      | b1 :: r =>
+        match cont b1 with
+        | some c1 => (decodeUtf8 f r).map (((b0.toNat - 0xC0) * 64 + c1) :: ·)
+        | none => none
       | _ => none
     else if b0.toNat < 0xF0 then
       match rest with
       | b1 :: b2 :: r =>
-        (decodeUtf8 f r).map (((b0.toNat - 0xE0) * 4096 + cont b1 * 64 + cont b2) :: ·)
+        match cont b1, cont b2 with
+        | some c1, some c2 =>
+          if (b0.toNat - 0xE0) * 4096 + c1 * 64 + c2 < 0x800 ∨
+              (0xD800 ≤ (b0.toNat - 0xE0) * 4096 + c1 * 64 + c2 ∧
+                (b0.toNat - 0xE0) * 4096 + c1 * 64 + c2 < 0xE000) then none
+          else (decodeUtf8 f r).map (((b0.toNat - 0xE0) * 4096 + c1 * 64 + c2) :: ·)
+        | _, _ => none
       | _ => none
-    else
+    else if b0.toNat < 0xF5 then
       match rest with
       | b1 :: b2 :: b3 :: r =>
-        (decodeUtf8 f r).map
-          (((b0.toNat - 0xF0) * 262144 + cont b1 * 4096 + cont b2 * 64 + cont b3) :: ·)
+        match cont b1, cont b2, cont b3 with
+        | some c1, some c2, some c3 =>
+          if (b0.toNat - 0xF0) * 262144 + c1 * 4096 + c2 * 64 + c3 < 0x10000 ∨
+              0x110000 ≤ (b0.toNat - 0xF0) * 262144 + c1 * 4096 + c2 * 64 + c3 then none
+          else (decodeUtf8 f r).map
+            (((b0.toNat - 0xF0) * 262144 + c1 * 4096 + c2 * 64 + c3) :: ·)
+        | _, _, _ => none
       | _ => none
+    else none
 
 end Spec
+
+/-- the decoder is strict about the byte layout: a lead byte followed by a non-continuation
+    byte, over-long forms and encoded surrogates are refused (so `utf8_roundtrip` pins the
+    RFC 3629 layout, not merely "some injective encoding") -/
+theorem decodeUtf8_strict :
+    Spec.decodeUtf8 9 [0xC3, 0x28] = none ∧ Spec.decodeUtf8 9 [0xC1, 0x80] = none ∧
+    Spec.decodeUtf8 9 [0xC0, 0xC0] = none ∧ Spec.decodeUtf8 9 [0xE0, 0x80, 0x80] = none ∧
+    Spec.decodeUtf8 9 [0xED, 0xA0, 0x80] = none ∧ Spec.decodeUtf8 9 [0xF4, 0x90, 0x80, 0x80] = none ∧
+    Spec.decodeUtf8 9 [0xE2, 0x82, 0x41] = none ∧ Spec.decodeUtf8 9 [0x80] = none ∧
+    Spec.decodeUtf8 9 [0xC3, 0xA9] = some [0xE9] ∧ Spec.decodeUtf8 9 [0xE2, 0x82, 0xAC] = some [0x20AC] ∧
+    Spec.decodeUtf8 9 [0xF0, 0x9F, 0x98, 0x80] = some [0x1F600] := by decide
+
+theorem cont_of (n : Nat) (h : n < 64) : Spec.cont (0x80 + n).toUInt8 = some n := by
+  have e : (0x80 + n).toUInt8.toNat = 0x80 + n := toUInt8_toNat (by omega)
+  generalize (0x80 + n).toUInt8 = x at e
+  unfold Spec.cont
+  rw [e, if_pos (by omega)]
+  have : 128 + n - 128 = n := by omega
+  rw [this]
 
 theorem decode_char (c : Nat) (bs : Bytes) (h : utf8Char c = .ok bs) (f : Nat) (rest : Bytes) :
     Spec.decodeUtf8 (f + 1) (bs ++ rest) = (Spec.decodeUtf8 f rest).map (c :: ·) := by
@@ -48,44 +86,37 @@ theorem decode_char (c : Nat) (bs : Bytes) (h : utf8Char c = .ok bs) (f : Nat) (
   · split at h
     · simp only [Except.ok.injEq] at h; subst h
       have e0 : (0xC0 + c / 64).toUInt8.toNat = 0xC0 + c / 64 := toUInt8_toNat (by omega)
-      have e1 : (0x80 + c % 64).toUInt8.toNat = 0x80 + c % 64 := toUInt8_toNat (by omega)
+      have e1 := cont_of (c % 64) (by omega)
       show Spec.decodeUtf8 (f + 1) ((0xC0 + c / 64).toUInt8 :: (0x80 + c % 64).toUInt8 :: rest) = _
       generalize (0xC0 + c / 64).toUInt8 = x0 at *
       generalize (0x80 + c % 64).toUInt8 = x1 at *
-      simp only [Spec.decodeUtf8]
-      unfold Spec.cont
-      rw [e0, e1, if_neg (by omega), if_neg (by omega), if_pos (by omega)]
-      have : (192 + c / 64 - 192) * 64 + (128 + c % 64 - 128) = c := by omega
+      simp only [Spec.decodeUtf8, e1]
+      rw [e0, if_neg (by omega), if_neg (by omega), if_pos (by omega)]
+      have : (192 + c / 64 - 192) * 64 + c % 64 = c := by omega
       rw [this]
     · split at h
       · simp at h
       · split at h
         · simp only [Except.ok.injEq] at h; subst h
           have e0 : (0xE0 + c / 4096).toUInt8.toNat = 0xE0 + c / 4096 := toUInt8_toNat (by omega)
-          have e1 : (0x80 + c / 64 % 64).toUInt8.toNat = 0x80 + c / 64 % 64 :=
-            toUInt8_toNat (by omega)
-          have e2 : (0x80 + c % 64).toUInt8.toNat = 0x80 + c % 64 := toUInt8_toNat (by omega)
+          have e1 := cont_of (c / 64 % 64) (by omega)
+          have e2 := cont_of (c % 64) (by omega)
           show Spec.decodeUtf8 (f + 1) ((0xE0 + c / 4096).toUInt8 :: (0x80 + c / 64 % 64).toUInt8
             :: (0x80 + c % 64).toUInt8 :: rest) = _
           generalize (0xE0 + c / 4096).toUInt8 = x0 at *
           generalize (0x80 + c / 64 % 64).toUInt8 = x1 at *
           generalize (0x80 + c % 64).toUInt8 = x2 at *
-          simp only [Spec.decodeUtf8]
-          unfold Spec.cont
-          rw [e0, e1, e2, if_neg (by omega), if_neg (by omega), if_neg (by omega),
-            if_pos (by omega)]
-          have : (224 + c / 4096 - 224) * 4096 + (128 + c / 64 % 64 - 128) * 64
-              + (128 + c % 64 - 128) = c := by omega
-          rw [this]
+          simp only [Spec.decodeUtf8, e1, e2]
+          have hv : (224 + c / 4096 - 224) * 4096 + c / 64 % 64 * 64 + c % 64 = c := by omega
+          rw [e0, if_neg (by omega), if_neg (by omega), if_neg (by omega), if_pos (by omega), hv,
+            if_neg (by omega)]
         · split at h
           · simp only [Except.ok.injEq] at h; subst h
             have e0 : (0xF0 + c / 262144).toUInt8.toNat = 0xF0 + c / 262144 :=
               toUInt8_toNat (by omega)
-            have e1 : (0x80 + c / 4096 % 64).toUInt8.toNat = 0x80 + c / 4096 % 64 :=
-              toUInt8_toNat (by omega)
-            have e2 : (0x80 + c / 64 % 64).toUInt8.toNat = 0x80 + c / 64 % 64 :=
-              toUInt8_toNat (by omega)
-            have e3 : (0x80 + c % 64).toUInt8.toNat = 0x80 + c % 64 := toUInt8_toNat (by omega)
+            have e1 := cont_of (c / 4096 % 64) (by omega)
+            have e2 := cont_of (c / 64 % 64) (by omega)
+            have e3 := cont_of (c % 64) (by omega)
             show Spec.decodeUtf8 (f + 1) ((0xF0 + c / 262144).toUInt8
               :: (0x80 + c / 4096 % 64).toUInt8 :: (0x80 + c / 64 % 64).toUInt8
               :: (0x80 + c % 64).toUInt8 :: rest) = _
@@ -93,13 +124,11 @@ theorem decode_char (c : Nat) (bs : Bytes) (h : utf8Char c = .ok bs) (f : Nat) (
             generalize (0x80 + c / 4096 % 64).toUInt8 = x1 at *
             generalize (0x80 + c / 64 % 64).toUInt8 = x2 at *
             generalize (0x80 + c % 64).toUInt8 = x3 at *
-            simp only [Spec.decodeUtf8]
-            unfold Spec.cont
-            rw [e0, e1, e2, e3, if_neg (by omega), if_neg (by omega), if_neg (by omega),
-              if_neg (by omega)]
-            have : (240 + c / 262144 - 240) * 262144 + (128 + c / 4096 % 64 - 128) * 4096
-                + (128 + c / 64 % 64 - 128) * 64 + (128 + c % 64 - 128) = c := by omega
-            rw [this]
+            simp only [Spec.decodeUtf8, e1, e2, e3]
+            have hv : (240 + c / 262144 - 240) * 262144 + c / 4096 % 64 * 4096
+                + c / 64 % 64 * 64 + c % 64 = c := by omega
+            rw [e0, if_neg (by omega), if_neg (by omega), if_neg (by omega), if_neg (by omega),
+              if_pos (by omega), hv, if_neg (by omega)]
           · simp at h
 
 /-- **String round trip**: whatever `str.encode()` produced decodes back to the same string
@@ -132,5 +161,154 @@ theorem utf8_roundtrip : ∀ (s : List Nat) (b : Bytes), utf8 s = .ok b →
                 · simp at h1
       have := utf8_roundtrip cs b2 h2 f (by simp at hf; omega)
       simp [this]
+
+theorem ofNat_toNat_u8 (b : UInt8) : b.toNat.toUInt8 = b := by
+  simp [Nat.toUInt8]
+
+theorem cont_some {b : UInt8} {c : Nat} (h : Spec.cont b = some c) :
+    c < 64 ∧ b.toNat = 0x80 + c := by
+  unfold Spec.cont at h
+  split at h
+  · simp at h; omega
+  · simp at h
+
+theorem utf8_cons_of {c : Nat} {cs : List Nat} {b1 b2 : Bytes}
+    (h1 : utf8Char c = .ok b1) (h2 : utf8 cs = .ok b2) : utf8 (c :: cs) = .ok (b1 ++ b2) := by
+  simp [utf8, h1, h2]
+
+/-- **Converse of the round trip**: the strict decoder accepts only what `str.encode()` produces -
+    if bytes decode to a string, encoding that string gives back exactly those bytes (so the
+    encoding is the unique UTF-8 form: no second byte string stands for the same text). -/
+theorem utf8_of_decode : ∀ (f : Nat) (b : Bytes) (s : List Nat),
+    Spec.decodeUtf8 f b = some s → utf8 s = .ok b
+  | 0, _, _, h => by simp [Spec.decodeUtf8] at h
+  | f + 1, [], s, h => by
+    simp [Spec.decodeUtf8] at h; subst h; rfl
+  | f + 1, b0 :: rest, s, h => by
+    simp only [Spec.decodeUtf8] at h
+    split at h
+    · -- 1 byte
+      rename_i h0
+      cases hd : Spec.decodeUtf8 f rest with
+      | none => simp [hd] at h
+      | some t =>
+        simp [hd] at h; subst h
+        have ih := utf8_of_decode f rest t hd
+        have hc : utf8Char b0.toNat = .ok [b0] := by
+          simp [utf8Char, h0]
+        simpa using utf8_cons_of hc ih
+    · split at h
+      · simp at h
+      · split at h
+        · -- 2 bytes
+          rename_i h0 h1 h2
+          match rest, h with
+          | [], h => simp at h
+          | b1 :: r, h =>
+            simp only at h
+            cases hc1 : Spec.cont b1 with
+            | none => simp [hc1] at h
+            | some c1 =>
+              simp only [hc1] at h
+              cases hd : Spec.decodeUtf8 f r with
+              | none => simp [hd] at h
+              | some t =>
+                simp [hd] at h; subst h
+                have ih := utf8_of_decode f r t hd
+                obtain ⟨k1, e1⟩ := cont_some hc1
+                have hc : utf8Char ((b0.toNat - 0xC0) * 64 + c1) = .ok [b0, b1] := by
+                  have a0 : (0xC0 + ((b0.toNat - 0xC0) * 64 + c1) / 64) = b0.toNat := by omega
+                  have a1 : (0x80 + ((b0.toNat - 0xC0) * 64 + c1) % 64) = b1.toNat := by omega
+                  unfold utf8Char
+                  rw [if_neg (by omega), if_pos (by omega), a0, a1, ofNat_toNat_u8, ofNat_toNat_u8]
+                simpa using utf8_cons_of hc ih
+        · split at h
+          · -- 3 bytes
+            rename_i h0 h1 h2 h3
+            match rest, h with
+            | [], h => simp at h
+            | [_], h => simp at h
+            | b1 :: b2 :: r, h =>
+              simp only at h
+              cases hc1 : Spec.cont b1 with
+              | none => simp [hc1] at h
+              | some c1 =>
+                cases hc2 : Spec.cont b2 with
+                | none => simp [hc1, hc2] at h
+                | some c2 =>
+                  simp only [hc1, hc2] at h
+                  split at h
+                  · simp at h
+                  · rename_i hrange
+                    cases hd : Spec.decodeUtf8 f r with
+                    | none => simp [hd] at h
+                    | some t =>
+                      simp [hd] at h; subst h
+                      have ih := utf8_of_decode f r t hd
+                      obtain ⟨k1, e1⟩ := cont_some hc1
+                      obtain ⟨k2, e2⟩ := cont_some hc2
+                      have hc : utf8Char ((b0.toNat - 0xE0) * 4096 + c1 * 64 + c2) = .ok [b0, b1, b2] := by
+                        have a0 : (0xE0 + ((b0.toNat - 0xE0) * 4096 + c1 * 64 + c2) / 4096) = b0.toNat := by
+                          omega
+                        have a1 : (0x80 + ((b0.toNat - 0xE0) * 4096 + c1 * 64 + c2) / 64 % 64) = b1.toNat := by
+                          omega
+                        have a2 : (0x80 + ((b0.toNat - 0xE0) * 4096 + c1 * 64 + c2) % 64) = b2.toNat := by
+                          omega
+                        unfold utf8Char
+                        rw [if_neg (by omega), if_neg (by omega), if_neg (by omega), if_pos (by omega),
+                          a0, a1, a2, ofNat_toNat_u8, ofNat_toNat_u8, ofNat_toNat_u8]
+                      simpa using utf8_cons_of hc ih
+          · split at h
+            · -- 4 bytes
+              rename_i h0 h1 h2 h3 h4
+              match rest, h with
+              | [], h => simp at h
+              | [_], h => simp at h
+              | [_, _], h => simp at h
+              | b1 :: b2 :: b3 :: r, h =>
+                simp only at h
+                cases hc1 : Spec.cont b1 with
+                | none => simp [hc1] at h
+                | some c1 =>
+                  cases hc2 : Spec.cont b2 with
+                  | none => simp [hc1, hc2] at h
+                  | some c2 =>
+                    cases hc3 : Spec.cont b3 with
+                    | none => simp [hc1, hc2, hc3] at h
+                    | some c3 =>
+                      simp only [hc1, hc2, hc3] at h
+                      split at h
+                      · simp at h
+                      · rename_i hrange
+                        cases hd : Spec.decodeUtf8 f r with
+                        | none => simp [hd] at h
+                        | some t =>
+                          simp [hd] at h; subst h
+                          have ih := utf8_of_decode f r t hd
+                          obtain ⟨k1, e1⟩ := cont_some hc1
+                          obtain ⟨k2, e2⟩ := cont_some hc2
+                          obtain ⟨k3, e3⟩ := cont_some hc3
+                          have hc : utf8Char ((b0.toNat - 0xF0) * 262144 + c1 * 4096 + c2 * 64 + c3) =
+                              .ok [b0, b1, b2, b3] := by
+                            have a0 : (0xF0 + ((b0.toNat - 0xF0) * 262144 + c1 * 4096 + c2 * 64 + c3) / 262144)
+                                = b0.toNat := by omega
+                            have a1 : (0x80 + ((b0.toNat - 0xF0) * 262144 + c1 * 4096 + c2 * 64 + c3) / 4096 % 64)
+                                = b1.toNat := by omega
+                            have a2 : (0x80 + ((b0.toNat - 0xF0) * 262144 + c1 * 4096 + c2 * 64 + c3) / 64 % 64)
+                                = b2.toNat := by omega
+                            have a3 : (0x80 + ((b0.toNat - 0xF0) * 262144 + c1 * 4096 + c2 * 64 + c3) % 64)
+                                = b3.toNat := by omega
+                            unfold utf8Char
+                            rw [if_neg (by omega), if_neg (by omega), if_neg (by omega), if_neg (by omega),
+                              if_pos (by omega), a0, a1, a2, a3, ofNat_toNat_u8, ofNat_toNat_u8,
+                              ofNat_toNat_u8, ofNat_toNat_u8]
+                          simpa using utf8_cons_of hc ih
+            · simp at h
+
+
+/-- encoder and strict decoder are mutually inverse: `b` decodes to `s` iff `s` encodes to `b` -/
+theorem utf8_decode_iff (s : List Nat) (b : Bytes) :
+    Spec.decodeUtf8 (b.length + 1) b = some s ↔ utf8 s = .ok b :=
+  ⟨utf8_of_decode _ b s, fun h => utf8_roundtrip s b h _ (by omega)⟩
 
 end Aiorpcx.C16
